@@ -14,7 +14,8 @@ RULE = ("circuits over Rx/Ry/Rz/CRz/CRx/CU1/scalars whose phases are affine "
         "non-linearly or with a coefficient != 1")
 TOL = dict(atol=1e-7, rtol=1e-7)
 EXPRS = ["u", "v", "2*u", "u + 0.25", "u*v", "u**2", "u/2 + v", "-u",
-         "u + v + 0.5", "3*u - 1"]
+         "u + v + 0.5", "3*u - 1", "u**2 + 3*u", "v*(2*u + v)", "u**3 - u",
+         "(u + 1)*(u - v)"]
 POINTS = [0.3, -0.7, 1.25, 0.45, -0.2]
 
 
